@@ -201,7 +201,7 @@ func init() {
 			}},
 			{Name: "hours-and-offsets", Quick: []int{1}, Run: func(c *explore.Chooser, x *explore.Ctx, _ int) {
 				days := [][3]int{{1000, 1, 1}, {1582, 10, 15}, {1600, 2, 29}, {1900, 2, 28}, {1900, 3, 1}, {1969, 12, 31}, {1970, 1, 1}, {1999, 12, 31}, {2000, 2, 29}, {2004, 12, 31},
-					{2009, 12, 31}, {2010, 1, 3}, {2015, 12, 31}, {2020, 12, 31}, {2021, 1, 3}, {2024, 2, 29}, {2026, 12, 28}, {2038, 1, 19}, {2262, 4, 11}, {2262, 4, 12}, {9999, 12, 30}}
+					{2009, 12, 31}, {2010, 1, 3}, {2015, 12, 31}, {2020, 12, 31}, {2021, 1, 3}, {2024, 2, 29}, {2026, 12, 28}, {2038, 1, 19}, {2262, 4, 11}, {2262, 4, 12}, {9999, 12, 30}, {9999, 12, 31}}
 				d := days[c.Choose(len(days))]
 				h := c.Choose(24)
 				mi := []int{0, 59}[c.Choose(2)]
@@ -209,10 +209,29 @@ func init() {
 				c.Done()
 				ms := int64(daysFromCivil(d[0], d[1], d[2]))*86400000 + int64(h)*3600000 + int64(mi)*60000 + 999
 				f := c19Decompose(ms, off)
-				if f.y < 1000 || f.y > 9999 {
+				if u := c19Decompose(ms, 0); u.y < 1000 || u.y > 9999 {
 					return
 				}
+				// the instant lies in the years 1000..9999; under an offset its local year can be 999 or 10000
 				doc := map[string]interface{}{"ms": float64(ms), "tz": tzArg(off)}
+				if f.y > 9999 {
+					// one finding for the whole class (every instant of the last 14 hours of 9999 under a positive offset)
+					got := impl.Run(`$toMillis($fromMillis(ms, (), tz)) = ms`, doc)
+					x.Eval()
+					x.Validated()
+					if !(got.Kind == impl.Value && got.Val == true) {
+						x.Violation("value", "inverse-default:local-year-10000", explore.Detail{Program: `$toMillis($fromMillis(ms, (), tz)) = ms`, Input: jsonText(doc),
+							Expected: "value true", Observed: got.String(), Note: "the default picture writes the local year 10000 with five digits, which $toMillis does not read back"})
+					}
+					return
+				}
+				if f.y < 1000 {
+					c19Check(x, `$toMillis($fromMillis(ms, (), tz)) = ms`, doc, true, false)
+					if f.y < 1000 {
+						c19Check(x, `$fromMillis(ms, (), tz)`, doc, fmt.Sprintf("%04d-%02d-%02dT%02d:%02d:%02d.%03d%s", f.y, f.mo, f.d, f.h, f.mi, f.s, f.ms, isoOffset(off)), false)
+					}
+					return
+				}
 				got := c19Check(x, `$fromMillis(ms, "`+c19Composite+`", tz)`, doc, f.composite(), false)
 				c19Check(x, `$toMillis($fromMillis(ms, (), tz)) = ms`, doc, true, false)
 				c19Check(x, `$fromMillis(ms, (), tz)`, doc, fmt.Sprintf("%04d-%02d-%02dT%02d:%02d:%02d.%03d%s", f.y, f.mo, f.d, f.h, f.mi, f.s, f.ms, isoOffset(off)), false)
@@ -444,6 +463,13 @@ func c19PictureInvalid(p string) (bad, known bool) {
 					}
 					if strings.Count(w, "-") > 1 {
 						return true, true
+					}
+					// widths are all-ones numbers here, so the longer text is the larger number; "*" is unbounded
+					if parts := strings.Split(w, "-"); len(parts) == 2 && parts[0] != "*" && parts[1] != "*" && len(parts[0]) > len(parts[1]) {
+						return true, true // maximum below minimum
+					}
+					if i == 0 || mod[:i] == "1" || mod[:i] == "11" {
+						continue // a plain width modifier (min, min-max, min-*, *-max) on [Y], [Y1], [Y11] is well-formed
 					}
 					return false, false
 				}
